@@ -628,8 +628,11 @@ def step (s : St) : Rec → St
     let time := conv s t
     if pid = tid then removeProc s pid time
     else
-      let (s, p) := getByPid s pid
-      (removeThread s p tid time).1
+      -- `Processes::get_existing_by_pid` (fix 8ede2c85): the EXIT record of a thread whose process is not
+      -- known (already gone, or never seen) is ignored — no process entry is created for it
+      match alGet s.procs pid with
+      | none => s
+      | some p => (removeThread s p tid time).1
   | .comm pid tid name isExec t =>
     let tm := if t = 0 then s.cur else t
     let time := conv s tm
@@ -659,6 +662,19 @@ def step (s : St) : Rec → St
     putProc s { p with mapq := p.mapq ++ mapOps s.cfg addr len pgoff path t }
 
 def run (cfg : Config) (rs : List Rec) : St := rs.foldl step (St.init cfg)
+
+/-- `handle_exit` before fix 8ede2c85 (finding C17-phantom-process-on-thread-exit): the non-main branch called
+the *creating* `Processes::get_by_pid`, so the EXIT of a thread whose pid had no live process made a process
+entry `<pid>` with its main thread, start 0, never ended. Only used by `C17_legacy_counterexample_phantom_process`. -/
+def stepLegacy (s : St) : Rec → St
+  | .exit pid tid t =>
+    if pid = tid then step s (.exit pid tid t)
+    else
+      let (s', p) := getByPid s pid
+      (removeThread s' p tid (conv s t)).1
+  | r => step s r
+
+def runLegacy (cfg : Config) (rs : List Rec) : St := rs.foldl stepLegacy (St.init cfg)
 
 /-- all `u64`/`u32` operations of the modelled path that would panic in a debug build -/
 def recSafe (cfg : Config) : Rec → Bool
